@@ -203,9 +203,13 @@ func (i *interpreter) concretize(t *Term, what string) uint64 {
 		if n < len(i.prefix) {
 			cand = i.prefix[n].cand
 		} else {
-			v, ok := i.ex.modelValue(i, t)
-			if !ok {
+			v, res := i.ex.modelValue(i, t)
+			if res == Unsat {
 				panic(pathAbort{"infeasible", "concretize: no model for " + what})
+			}
+			if res != Sat {
+				// not a verdict: the path is given up and counted as not explored
+				panic(pathAbort{"unsupported", "concretize: the solver gave no verdict on the values of " + what})
 			}
 			cand = v
 		}
